@@ -20,7 +20,8 @@ RULE = ("scripts of 4-16 ops over open/set-authority/release on one Controller (
         "mostly from {0,1,127,254,255}, ranges [s,MAX) as cesium writers use in 40% of the scripts (one region), else mostly bounded/touching/zero-length/"
         "reversed ranges over a 6-point alphabet (several regions, multi-region spans), flags ErrIfControlled / "
         "ErrOnUnauthorizedOpen / failing OpenResource; ~12% of ops malformed (empty subject, zero range, duplicate "
-        "subject, dead or reused handle). Non-trivial = a hand-over between two subjects AND (a tie between the two "
+        "subject, dead or reused handle); 12% of the scripts are tie-churn templates (equal-authority gates, early ones "
+        "released, re-opens at the same authority, then a hand-back). Non-trivial = a hand-over between two subjects AND (a tie between the two "
         "highest gates of a region OR a release of a non-holder); distinct by hash.")
 TRUSTED = ["hook cesium/internal/control/export_verif.go (VerifDump: read-only copy of regions/gates)",
            "harness resource = counter of OpenResource calls, so Transfer.Resource identifies the region",
@@ -96,8 +97,50 @@ def gen_case(rng):
     return {"kind": "ctl", "shared": shared, "ops": ops}
 
 
+def gen_churn(rng):
+    """tie churn: several gates at one authority, early ones released, re-opens at the same authority, then a
+    hand-back (higher gate opens and releases / holder lowers itself / a gate is raised to the tie): control must
+    go to the earliest-opened of the remaining highest gates, whatever was released before."""
+    A = rng.choice([1, 5, 127, 254])
+    M = MAXTS
+    ops, h = [], 0
+
+    def opn(subj, auth):
+        nonlocal h
+        ops.append({"op": "open", "h": h, "subj": subj, "auth": auth, "s": rng.choice(STARTS[:3]), "e": M,
+                    "eic": False, "eou": False, "resfail": False})
+        h += 1
+        return h - 1
+    k = rng.choice([2, 3, 3, 4])
+    first = [opn(i + 1, A if rng.random() < 0.85 else max(0, A - 1)) for i in range(k)]
+    gone = rng.sample(first[:-1], rng.randrange(1, k)) if k > 1 else []
+    for g in sorted(gone):
+        ops.append({"op": "release", "h": g})
+    left = [g for g in first if g not in gone]
+    later = [opn(k + 1 + i, A) for i in range(rng.choice([1, 1, 2]))]
+    x = rng.random()
+    if x < 0.4:
+        hi = opn(9, min(255, A + rng.choice([1, 1, 100])))
+        if rng.random() < 0.3:
+            ops.append({"op": "set", "h": rng.choice(left + later), "auth": A})
+        ops.append({"op": "release", "h": hi})
+    elif x < 0.7:
+        ops.append({"op": "set", "h": left[0], "auth": max(0, A - 1)})
+        if rng.random() < 0.5:
+            ops.append({"op": "set", "h": left[0], "auth": A})
+    else:
+        v = rng.choice(left + later)
+        ops.append({"op": "set", "h": v, "auth": A + 1 if A < 255 else A})
+        ops.append({"op": "set", "h": v, "auth": A})
+        ops.append({"op": "set", "h": rng.choice(left + later), "auth": A})
+    for g in left + later:
+        if rng.random() < 0.4:
+            ops.append({"op": "release", "h": g})
+    return {"kind": "ctl", "shared": rng.random() < 0.3, "ops": ops}
+
+
 def gen_cases(rng, tier, n):
-    return [gen_case(rng) for _ in range(n)]
+    return [gen_churn(rng) if rng.random() < 0.12 else gen_case(rng) for _ in range(n)]
 
 
 # ------------------------------------------------------------------ Coq printing
